@@ -36,6 +36,30 @@ def is_empty_weights_path(p):
     return False
 
 
+def ctor_guard_table(ctx, rule, cname, field, param, cases, what, keyprefix):
+    """Decision table of the constructor on one numeric parameter: for each (value, valid) the constructor either refuses with ValueError or stores the
+    parameter, unchanged, in self.<field>.  Anchored on the public constructor: where the validation lives (method, module function, inline) is immaterial."""
+    from ..symex import Valuation
+    from ..lib import heap_writes
+    fn = ctx.fn(cname + '.__init__')
+
+    def pol(caller, callee, depth):
+        return depth <= 6 and (default_policy(caller, callee, depth) or callee.path == fn.path)
+    for val_, valid in cases:
+        v = Valuation(nums={param: val_})
+        ps = summarise(ctx, fn, policy=pol, oracle=v)
+        outs = set()
+        for p in ps:
+            if p.outcome == 'raise':
+                outs.add('raise:' + p.state.exc[1])
+            else:
+                w = heap_writes(p, field)
+                outs.add('stores:' + (fmt(w[-1].value) if w else 'nothing'))
+        want = {'stores:' + param} if valid else {'raise:ValueError'}
+        ctx.require(outs == want, rule, '%s of %s is %s' % (what, val_, 'accepted and stored unchanged' if valid else 'rejected with ValueError'), fn.site(),
+                    'outcomes %s%s' % (sorted(outs), (' (depends on %s)' % sorted(set(v.unknown))[:2]) if v.unknown else ''), key='%s|%s' % (keyprefix, val_))
+
+
 def sizing_paths(ctx, cname):
     """-> all paths, and for every normal path that sizes: dict(path, loop, bodies[dict(path, quantity, fee, price, writes)])"""
     qn = cname + '.__call__'
